@@ -85,6 +85,20 @@ def _run(repo, rep):
         rep.holds('R-GUARD', key, w, 'type guards on the parameter set and on the epoch raise before the propagation')
     else:
         rep.undecided('R-GUARD', key, w, 'only %d raising type guards found' % guards)
+    # the raising tests that look at the POINT: none may fire for coordinates of the domain - zero included (a pole, the equator, the
+    # 0 / 90 / 180 / 270 degree meridians have a coordinate that is exactly 0)
+    from .. import guards as _guards
+
+    def _not_about_the_point(q_, cond_, node_):
+        if not isinstance(cond_, Rat):
+            return True
+        names_ = set(alg.TABLE.atoms[k_].name for k_ in cond_.atoms(deep=True) if alg.TABLE.atoms[k_].kind == 'sym')
+        return not (names_ & {'x', 'y', 'z'}) or bool(names_ - {'x', 'y', 'z', 'pi'})
+    box_ = {'x': (-10000000, 10000000), 'y': (-10000000, 10000000), 'z': (-10000000, 10000000)}
+    n_pt = _guards.guard_rule(rep, 'R-GUARD', f, ev1.raise_conds, box_, 'points with |x|, |y|, |z| up to 1e7 m in all octants, coordinate planes and axes included',
+                              lambda nd: where(f, nd), skip=_not_about_the_point, suffix='[point]')
+    if n_pt == 0:
+        rep.holds('R-GUARD', 'R-GUARD::geodepy/transform.py::conform14::no-test-of-the-point', w, 'conform14 has no raising test of the coordinates')
     # 3. wrappers
     opq2 = {'conform14', 'Transformation.__neg__'}
     for fname, oname, what in (('transform_atrf2014_to_gda2020', 'atrf_fwd', 'the plate-motion set atrf2014_to_gda2020'),
